@@ -245,12 +245,22 @@ theorem step_chunk (c : Cfg) (s : St) (raw : Bytes) (t : Nat) (hr : s.status = .
       else finish c (answer c c.k2 (answer c c.k1 (afterRead c s raw t))) := by
   simp [step, hr, afterRead]
 
-theorem step_connErr (c : Cfg) (s : St) (hr : s.status = .running) :
+/-- the connection-error branch does what the theorems assume: a return, one more attempt, back to
+    the top — counters and buffer untouched.  (For the generated loops this is `conn_err_branch_untouched`
+    in C09.lean.) -/
+def ErrOK (c : Cfg) : Prop := c.catchErr = true → c.errBranch = [.sendReturn, .bumpAttempts, .cont]
+
+theorem execErr_std (s : St) : execErr [.sendReturn, .bumpAttempts, .cont] s = kick s := rfl
+
+theorem step_connErr (c : Cfg) (he : ErrOK c) (s : St) (hr : s.status = .running) :
     step c s .connErr =
       if c.catchErr then kick { s with nread := s.nread + 1 }
       else { s with nread := s.nread + 1, status := .connError } := by
   unfold step
   rw [if_neg (by simp [hr])]
+  by_cases hc : c.catchErr = true
+  · simp only [hc, if_true]; rw [he hc, execErr_std]
+  · simp [hc]
 
 theorem afterRead_status (c : Cfg) (s : St) (raw : Bytes) (t : Nat) :
     (afterRead c s raw t).status = s.status := by
@@ -269,13 +279,13 @@ theorem inv_afterRead (c : Cfg) (s : St) (raw : Bytes) (t : Nat) (h : Inv c s) (
   · exact inv_congr c _ _ (inv_kick c _ h0 hr) rfl rfl rfl
   · exact inv_congr c _ _ h0 rfl rfl rfl
 
-theorem inv_step (c : Cfg) (hk1 : c.k1 ≠ .ret) (hk2 : c.k2 ≠ .ret) (s : St) (r : Read) (h : Inv c s) :
+theorem inv_step (c : Cfg) (he : ErrOK c) (hk1 : c.k1 ≠ .ret) (hk2 : c.k2 ≠ .ret) (s : St) (r : Read) (h : Inv c s) :
     Inv c (step c s r) := by
   by_cases hr : s.status = .running
   · cases r with
     | connErr =>
       have h0 : Inv c { s with nread := s.nread + 1 } := inv_congr c s _ h rfl rfl rfl
-      rw [step_connErr c s hr]
+      rw [step_connErr c he s hr]
       split
       · exact inv_kick c _ h0 hr
       · refine ⟨h.sight, h.wr, ?_, ?_, h.seenP, ?_⟩
@@ -294,12 +304,12 @@ theorem inv_step (c : Cfg) (hk1 : c.k1 ≠ .ret) (hk2 : c.k2 ≠ .ret) (s : St) 
       · exact inv_finish c _ (inv_answer c c.k2 hk2 _ (inv_answer c c.k1 hk1 _ h2))
   · rw [step_stopped c s r hr]; exact h
 
-theorem inv_run (c : Cfg) (hk1 : c.k1 ≠ .ret) (hk2 : c.k2 ≠ .ret) (tape : List Read) : Inv c (run c tape) := by
+theorem inv_run (c : Cfg) (he : ErrOK c) (hk1 : c.k1 ≠ .ret) (hk2 : c.k2 ≠ .ret) (tape : List Read) : Inv c (run c tape) := by
   unfold run
   suffices ∀ s, Inv c s → Inv c (tape.foldl (step c) s) from this init (inv_init c)
   induction tape with
   | nil => intro s h; exact h
-  | cons r t ih => intro s h; exact ih _ (inv_step c hk1 hk2 s r h)
+  | cons r t ih => intro s h; exact ih _ (inv_step c he hk1 hk2 s r h)
 
 /-! ### the sighting buffers partition the input stream -/
 
@@ -318,11 +328,11 @@ theorem consumed_finish (c : Cfg) (s : St) : consumed (finish c s) = consumed s 
 
 theorem consumed_kick (s : St) : consumed (kick s) = consumed s := by simp [consumed, kick]
 
-theorem consumed_step (c : Cfg) (s : St) (r : Read) (hr : s.status = .running) :
+theorem consumed_step (c : Cfg) (he : ErrOK c) (s : St) (r : Read) (hr : s.status = .running) :
     consumed (step c s r) = consumed s ++ lc (rawOf r) := by
   cases r with
   | connErr =>
-    rw [step_connErr c s hr]
+    rw [step_connErr c he s hr]
     split
     · rw [consumed_kick]; simp [consumed, rawOf]
     · simp [consumed, rawOf]
@@ -337,7 +347,7 @@ theorem consumed_step (c : Cfg) (s : St) (r : Read) (hr : s.status = .running) :
     · simpa [consumed, rawOf] using h1
     · rw [consumed_finish, consumed_answer, consumed_answer, h1]; rfl
 
-theorem consumed_fold (c : Cfg) (tape : List Read) : ∀ (s : St) (pre0 : List Read),
+theorem consumed_fold (c : Cfg) (he : ErrOK c) (tape : List Read) : ∀ (s : St) (pre0 : List Read),
     consumed s = lc (streamOf pre0) →
     ∃ pre post, tape = pre ++ post ∧ consumed (tape.foldl (step c) s) = lc (streamOf (pre0 ++ pre)) := by
   induction tape with
@@ -346,7 +356,7 @@ theorem consumed_fold (c : Cfg) (tape : List Read) : ∀ (s : St) (pre0 : List R
     intro s pre0 h
     by_cases hr : s.status = .running
     · have h' : consumed (step c s r) = lc (streamOf (pre0 ++ [r])) := by
-        rw [consumed_step c s r hr, h, streamOf_append, lc_append]
+        rw [consumed_step c he s r hr, h, streamOf_append, lc_append]
         cases r <;> simp [streamOf, rawOf]
       obtain ⟨pre, post, ht, hc⟩ := ih (step c s r) (pre0 ++ [r]) h'
       exact ⟨r :: pre, post, by simp [ht], by simpa using hc⟩
